@@ -460,6 +460,13 @@ func (a *Analysis) ruleT3() {
 		if okL {
 			r.OK("T3", "read-after-guard/"+M.Name(), pos, "", "%d reads, each dominated by the guard's Do", nl)
 		}
+		if okL && okA && list != nil {
+			// what is read from the variable is always the finished map, a fresh make: not nil
+			if a.G.MapNonNil == nil {
+				a.G.MapNonNil = map[*ssa.Global]bool{}
+			}
+			a.G.MapNonNil[M] = true
+		}
 	}
 	r.Counts["T3.maps"] = maps
 	r.Counts["T3.guards"] = len(usedGuard)
